@@ -12,6 +12,7 @@ import (
 	"go.etcd.io/bbolt"
 	"verif/harness/internal/core"
 	"verif/harness/internal/memsym"
+	"verif/harness/internal/ql"
 	"verif/harness/internal/qx"
 	"verif/harness/internal/schema"
 )
@@ -169,6 +170,7 @@ func init() {
 		Level: "exploration",
 		Rule: "generated datasets (0-12 things, owners, others; nulls p=0.25, empty sets, empty-string elements, case variants, shared prefixes, boundary integers, equal instants in different zones, typed and nested map values) x generated well-typed filters to depth 3 " +
 			"(scalar, path-prefixed, map-element, dotted single-valued, anyOf/allOf over direct and dotted sets, count over sets and sub-queries with skip/limit, isEmpty, bool symbols/constants, and/or/not; every operator incl. null tests; int<->float and number->string coercions), fully parenthesised. " +
+			"a third of the deeper filters are written with the fewest parentheses precedence allows (not > and > or; scripted three- to five-atom chains mixing and / or among them), in-lists have 16-24 elements now and then, integers inside maps are stored as int32 as often as int64. " +
 			"Every filter is answered by an independent reference evaluator and by the engine through QueryIds (canonical and re-spelled text), IterateIds, and QueryWithCursorC over an index-driven cursor provider (IteratorMatchingAnyOf); differing id sets, " +
 			"or a rejected / panicking well-typed filter, are violations. A fifth path evaluates the text with package ast alone over an in-memory ast.Symbols; every fourth case queries the owners / others stores (3-4 hop dotted paths); every fifth case writes the dataset and runs all its queries inside one write transaction (uncommitted data); every seventh queries through a plain child store layered on the things store (half of the things have child data). Cases the statement leaves open are executed but not judged. non-trivial = distinct (filter, dataset) whose answer is neither empty nor everything",
 		Assumptions: []string{"semantics not fixed by the statement are not judged: count/isEmpty over dotted paths, ordering of a string symbol against a number literal, map elements whose stored type differs from the literal's, icontains over non-ASCII, bare bool symbols holding null"},
@@ -265,6 +267,26 @@ func runC01(c *core.Ctx, idx int) {
 				e = qx.Cmp{L: qx.LHS{Kind: "sym", Sym: "id"}, Op: core.Pick(r, []string{"=", "=", "in"}), R: []qx.Lit{qx.LStr(thingIds[k])}}
 			}
 			q := &qx.Query{Pred: e}
+			if depth >= 2 && k%3 == 2 && !viaChild {
+				// precedence instead of parentheses: not > and > or; every third of those is a scripted chain
+				// of three or four atoms mixing the two connectives
+				q.Flat = true
+				if k%9 == 2 {
+					a := []qx.Expr{g.Atom(0), g.Atom(0), g.Atom(0), g.Atom(0), g.Atom(0)}
+					switch r.Intn(4) {
+					case 0:
+						e = qx.Or{L: qx.And{L: qx.And{L: a[0], R: a[1]}, R: a[2]}, R: a[3]}
+					case 1:
+						e = qx.Or{L: a[3], R: qx.And{L: a[0], R: qx.And{L: a[1], R: a[2]}}}
+					case 2:
+						e = qx.Or{L: qx.And{L: qx.And{L: a[0], R: a[1]}, R: a[2]}, R: qx.And{L: a[3], R: a[4]}}
+					default:
+						e = qx.And{L: a[0], R: qx.And{L: a[1], R: qx.Or{L: a[2], R: a[3]}}}
+					}
+					q.Pred = e
+				}
+				c.Count("filters_relying_on_precedence", 1)
+			}
 			stream := q.Stream()
 			text := stream.Canon()
 			want, judged, why := env.w.Match(e, store)
@@ -310,7 +332,12 @@ func runC01(c *core.Ctx, idx int) {
 				return ids, err
 			})
 			if r.P(0.5) {
+				ql.QuoteIds = true // identifiers between single quotes now and then (the grammar's second form)
 				respelled := stream.Respell(r)
+				ql.QuoteIds = false
+				if strings.Contains(respelled, "'") {
+					c.Count("filters_with_quoted_identifiers", 1)
+				}
 				run("QueryIds respelled", func() ([]string, error) {
 					ids, _, err := st.Store.QueryIds(tx, respelled)
 					if err != nil {
